@@ -462,7 +462,7 @@ func (c *PathCtx) typeAssert(fr *frame, instr *ssa.TypeAssert, itf Iface) Value 
 func (c *PathCtx) rangeIter(x Value, t types.Type) iterator {
 	switch x := x.(type) {
 	case *Map:
-		it := &mapIter{m: x, order: c.entry.MapOrder}
+		it := &mapIter{m: x, order: c.entry.MapOrder && c.lenient == 0}
 		if x != nil {
 			it.pending = append(it.pending, x.keys...)
 		} else {
